@@ -534,7 +534,7 @@ for _k in ASYNC_TWINS:
 from harness import corpus as _corpus  # noqa: E402
 
 _CENV = _corpus.make_env(Env)
-for _n in ("p", "q", "brk"):
+for _n in ("p", "q", "brk", "n1", "n2", "cbase"):
     SRC2NAME[_corpus.PARTIALS[_n]] = _n
     _scan(_n, _corpus.PARTIALS[_n])
     ASSIGNED_IN[_n] = _assigned_in(_n)
